@@ -490,6 +490,7 @@ def run(ck: Checker) -> None:
     ck.guard("R-REINSTALL", lambda: T.r_reinstall(ck))  # the children that are transformed are the ones the class itself declares
     from . import state_rules as S_
     ck.guard("R-TRANSFORM-PATH", lambda: S_.r_unstable_key(ck, "R-TRANSFORM-PATH", [(NODE, "ASTNode.accept"), (VIS, "ASTVisitor"), (VIS, "ASTTransformVisitor")], "a transformation looks at the tree it is given"))
+    ck.guard("R-DISPATCH", lambda: S_.r_class_keyed_memo(ck, "R-DISPATCH", (NODE, VIS), "strict is read from the visitor that is visiting"))
     ck.guard("R-PRESENCE", lambda: T.r_presence(ck))
     ck.require_count("R-DISPATCH", 2)
     ck.require_count("R-TRANSFORM-PATH", 3)
